@@ -478,6 +478,109 @@ class CoopEvent:
         return self.flag
 
 
+class CoopSemaphore:
+    def __init__(self, value=1, bounded=False):
+        if value < 0:
+            raise ValueError("semaphore initial value must be >= 0")
+        self.value = value
+        self.initial = value
+        self.bounded = bounded
+
+    def acquire(self, blocking=True, timeout=None):
+        s = Scheduler.current
+        if s is None or s.aborting or s.me() is None:
+            if self.value > 0:
+                self.value -= 1
+            return True          # inert mode: never block
+        s.point("sem.acquire")
+        if self.value <= 0:
+            if not blocking:
+                return False
+            ok = s.block(lambda: self.value > 0, tmode=("idle" if timeout is not None else None), what="semaphore")
+            if not ok:
+                return False
+        self.value -= 1
+        return True
+
+    def release(self, n=1):
+        if self.bounded and self.value + n > self.initial:
+            raise ValueError("Semaphore released too many times")
+        self.value += n
+        s = Scheduler.current
+        if s is not None and not s.aborting and s.me() is not None:
+            s.point("sem.release")
+
+    def __enter__(self):
+        self.acquire()
+        return self
+
+    def __exit__(self, *a):
+        self.release()
+
+
+class CoopCondition:
+    """threading.Condition on a cooperative lock: wait() releases the lock, parks until notified (or a timeout fires), re-acquires"""
+
+    def __init__(self, lock=None):
+        self._lock = lock if lock is not None else CoopLock(True)
+        self._waiters = []      # tickets: one-element lists, [True] once notified
+        self.acquire = self._lock.acquire
+        self.release = self._lock.release
+
+    def __enter__(self):
+        return self._lock.__enter__()
+
+    def __exit__(self, *a):
+        return self._lock.__exit__(*a)
+
+    def wait(self, timeout=None):
+        s = Scheduler.current
+        if s is None or s.aborting or s.me() is None:
+            return True
+        if self._lock.owner is not s.me():
+            raise RuntimeError("cannot wait on un-acquired lock")
+        ticket = [False]
+        self._waiters.append(ticket)
+        depth = self._lock.count
+        self._lock.count = 0
+        self._lock.owner = None
+        s.point("cond.wait")
+        ok = ticket[0] or s.block(lambda: ticket[0], tmode=("idle" if timeout is not None else None), what="condition")
+        if ticket in self._waiters:
+            self._waiters.remove(ticket)
+        me = s.me()
+        if self._lock.owner is not None:
+            s.block(lambda: self._lock.owner is None, what="condition re-acquire")
+        self._lock.owner = me
+        self._lock.count = depth
+        return bool(ok)
+
+    def wait_for(self, predicate, timeout=None):
+        result = predicate()
+        tries = 0
+        while not result:
+            if not self.wait(timeout) and timeout is not None:
+                return predicate()
+            result = predicate()
+            tries += 1
+            if tries > 1000:
+                raise HarnessError("condition predicate never becomes true")
+        return result
+
+    def notify(self, n=1):
+        for ticket in self._waiters[:n]:
+            ticket[0] = True
+        del self._waiters[:n]
+        s = Scheduler.current
+        if s is not None and not s.aborting and s.me() is not None:
+            s.point("cond.notify")
+
+    def notify_all(self):
+        self.notify(len(self._waiters))
+
+    notifyAll = notify_all
+
+
 class ThreadingShim(types.ModuleType):
     """stands in for the 'threading' global of a Pyro5 module"""
 
@@ -493,6 +596,15 @@ class ThreadingShim(types.ModuleType):
 
     def Event(self):
         return CoopEvent("tick" if self._periodic else "idle")
+
+    def Condition(self, lock=None):
+        return CoopCondition(lock)
+
+    def Semaphore(self, value=1):
+        return CoopSemaphore(value)
+
+    def BoundedSemaphore(self, value=1):
+        return CoopSemaphore(value, bounded=True)
 
     def __getattr__(self, name):
         return getattr(threading, name)
